@@ -6,7 +6,7 @@ package main
 
 import (
 	"bytes"
-	"compress/zlib"
+	"hash/adler32"
 	"hash/crc32"
 
 	"github.com/google/wuffs/lib/rac"
@@ -130,6 +130,7 @@ type treeCfg struct {
 	maxDepth  int
 	maxArity  int
 	emptyProb int // percent
+	budget    *int // remaining branch nodes
 }
 
 type builtFile struct {
@@ -139,12 +140,36 @@ type builtFile struct {
 	desc    string
 }
 
+// zlibOf wraps p in a zlib stream of stored (uncompressed) deflate blocks, as in
+// the spec's "More!" example. No compress/flate writer: they cost ~1 MB each.
 func zlibOf(p []byte) []byte {
-	var buf bytes.Buffer
-	w, _ := zlib.NewWriterLevel(&buf, zlib.BestSpeed)
-	w.Write(p)
-	w.Close()
-	return buf.Bytes()
+	out := []byte{0x78, 0x9c}
+	for first := true; first || len(p) > 0; first = false {
+		n := len(p)
+		if n > 0xFFFF {
+			n = 0xFFFF
+		}
+		final := byte(0)
+		if n == len(p) {
+			final = 1
+		}
+		out = append(out, final, byte(n), byte(n>>8), byte(^n), byte(^n>>8))
+		out = append(out, p[:n]...)
+		p = p[n:]
+	}
+	a := adler32.Checksum(pAll(out))
+	return append(out, byte(a>>24), byte(a>>16), byte(a>>8), byte(a))
+}
+
+// pAll recovers the payload bytes of the stored blocks written by zlibOf.
+func pAll(z []byte) []byte {
+	var p []byte
+	for i := 2; i < len(z); {
+		n := int(z[i+1]) | int(z[i+2])<<8
+		p = append(p, z[i+5:i+5+n]...)
+		i += 5 + n
+	}
+	return p
 }
 
 func genContent(rng *hlib.Rand, n int) []byte {
@@ -205,7 +230,8 @@ func genTree(rng *hlib.Rand, cfg treeCfg, depth int, content *[]byte) *tnode {
 		switch {
 		case i == codecPos:
 			e.kind = kCodec
-		case depth < cfg.maxDepth && rng.Chance(2, 5):
+		case depth < cfg.maxDepth && *cfg.budget > 0 && rng.Chance(2, 5):
+			*cfg.budget--
 			e.kind = kBranch
 			e.child = genTree(rng, cfg, depth+1, content)
 			e.dsize = e.child.dsize
@@ -455,7 +481,11 @@ func minOffset(n *tnode) int {
 }
 
 func buildTreeFile(rng *hlib.Rand) builtFile {
-	cfg := treeCfg{codec: rng.Intn(4), maxDepth: rng.Intn(5), maxArity: 1 + rng.Intn(7), emptyProb: rng.Intn(40)}
+	budget := 1 + rng.Intn(12)
+	if rng.Chance(1, 10) {
+		budget = 40 + rng.Intn(60)
+	}
+	cfg := treeCfg{codec: rng.Intn(4), maxDepth: rng.Intn(6), maxArity: 1 + rng.Intn(7), emptyProb: rng.Intn(40), budget: &budget}
 	if rng.Chance(1, 2) {
 		cfg.codec = rng.Intn(2)
 	}
@@ -485,9 +515,6 @@ func buildChunkWriterFile(rng *hlib.Rand) builtFile {
 		w.IndexLocation = rac.IndexLocationAtStart
 		w.TempFile = &tmp
 	}
-	if rng.Chance(1, 3) {
-		w.CPageSize = uint64(1) << uint(2+rng.Intn(8))
-	}
 	codec := rac.CodecZeroes
 	switch rng.Intn(4) {
 	case 1:
@@ -496,13 +523,21 @@ func buildChunkWriterFile(rng *hlib.Rand) builtFile {
 		codec = rac.Codec(0x8000000000000000 | (rng.Uint64() & 0x00FFFFFFFFFFFFFF))
 	}
 	n := 1 + rng.Intn(12)
-	switch rng.Intn(8) {
+	switch rng.Intn(16) {
 	case 0:
 		n = 250 + rng.Intn(12)
 	case 1:
 		n = 80 + rng.Intn(300)
 	case 2:
 		n = 500 + rng.Intn(40)
+	case 3, 4:
+		n = 12 + rng.Intn(60)
+	}
+	if rng.Chance(1, 3) {
+		w.CPageSize = uint64(1) << uint(2+rng.Intn(8))
+		if n > 40 {
+			w.CPageSize = uint64(1) << uint(2+rng.Intn(3))
+		}
 	}
 	var res []rac.OptResource
 	nres := 0
@@ -531,7 +566,7 @@ func buildChunkWriterFile(rng *hlib.Rand) builtFile {
 		d := 1 + rng.Intn(30)
 		total += d
 		p := rng.Bytes(rng.Intn(6))
-		if rng.Chance(1, 30) {
+		if rng.Chance(1, 30) && n < 40 {
 			p = make([]byte, 1000+rng.Intn(3000))
 		}
 		if err := w.AddChunk(uint64(d), codec, p, s, t); err != nil {
@@ -577,9 +612,9 @@ func buildZlibWriterFile(rng *hlib.Rand) builtFile {
 			w.ResourcesData = append(w.ResourcesData, genContent(rng, 20+rng.Intn(200)))
 		}
 	}
-	n := rng.Intn(3000)
+	n := rng.Intn(1500)
 	if rng.Chance(1, 12) {
-		n = 6000 + rng.Intn(12000)
+		n = 4000 + rng.Intn(6000)
 	}
 	content := genContent(rng, n)
 	for i := 0; i < n; {
